@@ -3,6 +3,7 @@
 // throws the RuntimeError the plan prescribes (the documented module error path).
 #include "plugin_vf.h"
 #include "vf_host.h"
+#include "vf_object.h"
 #include <blocc/exception_runtime.h>
 #include <blocc/value.h>
 #include <cstdio>
@@ -24,17 +25,6 @@ namespace plugin
 {
 namespace vf
 {
-
-static const unsigned LIVE = 0x600D0B1Eu;
-static const unsigned DEAD = 0xDEADDEADu;
-
-struct Object
-{
-  unsigned magic;
-  long oid;
-  long tag;
-  long state;
-};
 
 static PLUGIN_TYPE ctor_1_args[] = { { "I", 0 } };
 
